@@ -144,12 +144,12 @@ CHECKS = {
 
 def in_domain(pid, vclass):
     """Routing (DESIGN 2.6): a check raises VIOLATION only for its own property. Engine-oracle classes carry the
-    property id; sanitizer memory errors inside the mechanism under test count for that property; undefined
-    behaviour, hangs and aborts are C05's subject and are only noted by the other checks."""
+    property id; sanitizer memory errors and hangs inside the mechanism under test count for that property; undefined
+    behaviour and aborts are C05's subject and are only noted by the other checks."""
     if pid == "C05":
         return True
-    if vclass.startswith(pid + ":") or vclass.startswith("asan:"):
-        return True
+    if vclass.startswith(pid + ":") or vclass.startswith("asan:") or vclass.startswith("hang:"):
+        return True   # every engine but C05 issues only in-contract calls: one that never returns violates its property
     if vclass.startswith("tsan:") or vclass == "deadlock":
         return pid in ("C09", "C19")
     return False
